@@ -3,12 +3,15 @@ package c02
 
 import (
 	"bytes"
+	"encoding/json"
 	"fmt"
 	"go/format"
 	"go/parser"
 	"go/token"
 	"os"
+	"regexp"
 	"runtime"
+	"sync/atomic"
 	"testing"
 
 	"github.com/dave/jennifer/jen"
@@ -29,12 +32,12 @@ type Case struct {
 	AfterPanic bool `json:"afterpanic,omitempty"`
 	// Late: configuration calls made after a first Render of the same File; the File is then
 	// rendered again and must equal gofmt of an identically configured NoFormat File.
-	Late  []recipe.FileOp   `json:"late,omitempty"`
+	Late []recipe.FileOp `json:"late,omitempty"`
 	// Staged: see checkCore (a statement finished after a first render)
-	Staged bool `json:"staged,omitempty"`
-	File  *recipe.File      `json:"file"`
-	Forms *recipe.Decisions `json:"forms,omitempty"` // form policy decisions (so that ...Func groups exist to render)
-	Note  string            `json:"note,omitempty"`
+	Staged bool              `json:"staged,omitempty"`
+	File   *recipe.File      `json:"file"`
+	Forms  *recipe.Decisions `json:"forms,omitempty"` // form policy decisions (so that ...Func groups exist to render)
+	Note   string            `json:"note,omitempty"`
 }
 
 type countingWriter struct {
@@ -103,7 +106,27 @@ func checkX(c Case, exclude bool) error {
 	return err
 }
 
+var freshCounter int64
+var freshRe = regexp.MustCompile(`n[0-9]+\.example/`)
+
+// refresh gives the "never seen before" paths of a recipe (n<number>.example/...) numbers this process has
+// really not used yet: the case was already rendered once while it was generated and classified.
+func refresh(f *recipe.File) *recipe.File {
+	b, err := json.Marshal(f)
+	if err != nil || !freshRe.Match(b) {
+		return f
+	}
+	n := atomic.AddInt64(&freshCounter, 1)
+	b = freshRe.ReplaceAll(b, []byte(fmt.Sprintf("n%d.example/", 2000000000+n)))
+	g := &recipe.File{}
+	if json.Unmarshal(b, g) != nil {
+		return f
+	}
+	return g
+}
+
 func checkCore(c Case) error {
+	c.File = refresh(c.File)
 	// poison: renders that panic in the documented way half-way through, recovered as a caller
 	// would; whatever they leave behind in the process must not reach the renders that follow.
 	// The goroutine stays on its thread meanwhile (per-P caches such as sync.Pool stay reachable).
